@@ -6,6 +6,7 @@ R17.2 symmetric use of the phase axis in the averaging rules (reductions over ax
 R17.3 registries: keyword -> id -> function tables are total and map each id to its namesake
 R17.4 formula shape of the bounds: the phase sum is taken before the non-linear Hashin-Shtrikman map; Wiener / labyrinth forms
 R17.5 T-PURE: averaging rules do not write into the (cached) mobility / phase-fraction arrays
+R17.8 T-PURE: neither do the post-process functions (they work on copies)
 """
 from __future__ import annotations
 import ast
@@ -222,6 +223,27 @@ def r172_r175(repo, ctx, purity):
             else:
                 ctx.ok('R17.5', HP, fn, f, f'no in-place write through an alias of {p}', construct=f'{fn}({p})')
     ctx.floor('R17.2', n, 6)
+    # R17.8: the post-process functions receive the arrays of the mobility record, which is the object kept in the cache of the
+    # diffusion models: a write through an alias of either array changes what every later evaluation of that point starts from
+    m = 0
+    for fn in POST:
+        if not repo.has_func(HP, fn):
+            continue
+        f = repo.func(HP, fn)
+        pn = U.params(f)
+        if len(pn) < 3:
+            ctx.undecided('R17.8', HP, fn, f, 'post-process function without (therm, mobility, fractions) parameters')
+            continue
+        for p in pn[1:3]:
+            m += 1
+            sites, _ = purity.analyse(HP, fn, f, purity.param_index(f, p))
+            if sites:
+                s = sites[0]
+                ctx.violation('R17.8', s.path, s.qual, s.node, f'{fn} writes into its {p} argument ({s.kind}): that array belongs to the mobility record stored in the cache, so later '
+                              'evaluations of the same point (with any post-processing, or computeMobility) start from the modified data', construct=f'{fn}({p}): {U.src(s.node)[:80]}')
+            else:
+                ctx.ok('R17.8', HP, fn, f, f'no in-place write through an alias of {p}', construct=f'{fn}({p})')
+    ctx.floor('R17.8', m, 8)
 
 
 def r173(repo, ctx, index):
